@@ -62,6 +62,9 @@ def concretise(chain, rng):
                 ins = [{'txid': b'\0' * 32, 'idx': 0xffffffff, 'sig': b'', 'seq': 0xffffffff}]
             else:
                 ins = [{'txid': rng.randbytes(32), 'idx': rng.randrange(4), 'sig': b'', 'seq': 0xfffffffe} for _ in range(t['nin'])]
+                if t['nin'] >= 2 and rng.random() < 0.6:
+                    # a null outpoint as FIRST of several inputs does not make a coinbase
+                    ins[0] = {'txid': b'\0' * 32, 'idx': 0xffffffff, 'sig': b'', 'seq': 0xffffffff}
             outs = [{'val': o['val'] * U, 'spk': spk(o['typ'], rng)} for o in t['outs']]
             tx = {'ver': 1, 'ins': ins, 'outs': outs, 'lock': bi * 10 + ki}
 
@@ -225,7 +228,8 @@ def main(ck, tier, w):
                 # neighbouring transactions differ by single bytes, so that an error of 1-2 bytes changes which one is biggest
                 siglen = r0.choice([r0.randrange(0, 200), 251, 252, 253, 254, 255, 252, 253])
                 nout = r0.choice([r0.randrange(0, 5), r0.randrange(0, 5), 252, 253, 254])
-                txs.append({'ver': 1, 'ins': [{'txid': r0.randbytes(32), 'idx': 0, 'sig': r0.randbytes(siglen), 'seq': 0}] * r0.choice([1, 1, 2, 253]),
+                first = [{'txid': b'\0' * 32, 'idx': 0xffffffff, 'sig': b'', 'seq': 0}] if r0.random() < 0.2 else []
+                txs.append({'ver': 1, 'ins': first + [{'txid': r0.randbytes(32), 'idx': 0, 'sig': r0.randbytes(siglen), 'seq': 0}] * r0.choice([1, 1, 2, 253]),
                             'outs': [{'val': r0.randrange(0, 2 ** 44), 'spk': r0.choice([spk(t, r0) for t in LABEL] + [b'\x51', b''])} for _ in range(nout)],
                             'lock': k})
             b = datadir.mk_block(prev, txs, t=times[h], nonce=h)
@@ -256,7 +260,8 @@ def main(ck, tier, w):
             txs = [btc.coinbase(h0 + k, None, outs=[{'val': r0.choice([rew, rew + 1, rew - 1, rew * 2, 0, rew + 500]), 'spk': spk(r0.choice(list(LABEL)), r0)}] +
                                 [{'val': 3, 'spk': b'\x6a' + btc.push(b'x')}] * r0.randrange(0, 2))]
             for j in range(r0.randrange(0, 5)):
-                txs.append({'ver': 1, 'ins': [{'txid': r0.randbytes(32), 'idx': 0, 'sig': r0.randbytes(r0.choice([0, 10, 10, 90])), 'seq': 0}] * r0.randrange(1, 4),
+                first = [{'txid': b'\0' * 32, 'idx': 0xffffffff, 'sig': b'', 'seq': 0}] if r0.random() < 0.3 else []
+                txs.append({'ver': 1, 'ins': first + [{'txid': r0.randbytes(32), 'idx': 0, 'sig': r0.randbytes(r0.choice([0, 10, 10, 90])), 'seq': 0}] * r0.randrange(1, 4),
                             'outs': [{'val': r0.choice([0, 7, 500, 500, 999]), 'spk': r0.choice([spk(t, r0) for t in LABEL] + [b'\x51', b'', b'\x00\x14' + r0.randbytes(20)])}
                                      for _ in range(r0.randrange(0, 4))], 'lock': j})
             b = datadir.mk_block(prev, txs, t=r0.choice([1000, 5000, 4000, 2 ** 31 - 5, 77, 77]), nonce=k)
